@@ -193,7 +193,30 @@ INTERACTOR_COMMON = """
 #define BUF_REQ (g_cap <= NBUF && __CPROVER_rw_ok(g_buf, NBUF * sizeof(Secondary)) && g_k < NBUF && g_old.particle_id == g_buf[g_k].particle_id && g_old.energy == g_buf[g_k].energy && g_draws == 0 && g_requested == 0)
 #define HARNESS_BUF  size_type cap, k; unsigned r1; __CPROVER_assume(cap <= NBUF && k < NBUF); Secondary buf[NBUF]; g_buf = buf; g_cap = cap; g_k = k; g_alloc_ok = (r1 != 0); g_old = buf[k];
 """
-ALLOC1 = Rule(r"Secondary\* (\w+) = allocate_\((\d)\);", r"Secondary* \1 = ALLOC_call(\2);", 1, note="allocator functor -> stub with the c16_alloc contract")
+class AllocIdioms:
+    """The secondary allocation idioms: `allocate_(n)` -> ALLOC_call(n) (stub with the c16_alloc contract) wherever it occurs (at least once);
+    `if (Secondary* p = ALLOC_call(n))` -> declaration + if; a Span<Secondary> built on the result -> {ptr, size} with empty()/data()/size()/front()/operator[]."""
+    pat = "alloc-idioms"
+
+    def apply(self, text, report, where):
+        import re as _re
+        text, n = _re.subn(r"\ballocate_\(", "ALLOC_call(", text)
+        if n == 0:
+            raise ExtractionDrift("no allocate_( call in " + where)
+        text, n2 = _re.subn(r"if \(Secondary\* (\w+) = (ALLOC_call\([^()]*\))\)", r"Secondary* \1 = \2;\n    if (\1)", text)
+        spans = _re.findall(r"Span<Secondary> (\w+)\{", text)
+        text, n3 = _re.subn(r"Span<Secondary> (\w+)\{([^{};]*)\};", r"SpanSecondary \1 = {\2};", text)
+        for nm in spans:
+            text = _re.sub(r"\b%s\.empty\(\)" % nm, "(%s.size == 0)" % nm, text)
+            text = _re.sub(r"\b%s\.data\(\)" % nm, "%s.ptr" % nm, text)
+            text = _re.sub(r"\b%s\.size\(\)" % nm, "%s.size" % nm, text)
+            text = _re.sub(r"\b%s\.front\(\)" % nm, "%s.ptr[0]" % nm, text)
+            text = _re.sub(r"&%s\[(\d)\]" % nm, r"(%s.ptr + \1)" % nm, text)
+        report.append({"where": where, "rule": self.pat, "fires": n + n2 + n3, "expected": "+", "note": "allocator functor -> stub with the c16_alloc contract; Span<Secondary> over the allocation -> {ptr, size}"})
+        return text
+
+
+ALLOC1 = AllocIdioms()
 FACTORY = Rule(r"Interaction::from_(failure|absorption|unchanged)\(\)", r"Interaction_from_\1()", "+", note="static factory (extracted)")
 
 
